@@ -144,7 +144,15 @@ func c39Check(c c39Case, r *ev.Rec) error {
 	if isHex && !strings.ContainsAny(std, "pP") {
 		std += "p0"
 	}
-	if isHex || !strings.ContainsAny(std, "pP") {
+	// strconv itself misplaces the decimal point when more than 800 digits precede it (it keeps 800 digits and counts
+	// only those): such numerals are judged by the exact oracle alone
+	intPart := strings.TrimLeft(strings.TrimLeft(std, "+-"), "0")
+	if i := strings.IndexAny(intPart, ".eE"); i >= 0 {
+		intPart = intPart[:i]
+	}
+	if !isHex && len(intPart) > 800 {
+		r.Label("strconv-cross-check-skipped(>800 integer digits)")
+	} else if isHex || !strings.ContainsAny(std, "pP") {
 		sv, serr := strconv.ParseFloat(std, 64)
 		if serr != nil && !strings.Contains(serr.Error(), "out of range") {
 			return fmt.Errorf("strconv cannot parse %q: %v", std, serr)
@@ -176,7 +184,7 @@ func c39Digits(t *rapid.T, lo, hi int, label string) string {
 }
 
 func c39Gen(t *rapid.T) c39Case {
-	class := rapid.SampledFrom([]string{"mant-exp", "mant-exp", "long-mant", "halfway", "halfway", "subnormal", "overflow", "hex", "hex", "hex-halfway", "hex-halfway", "extreme-exp", "pow10", "small-int"}).Draw(t, "class")
+	class := rapid.SampledFrom([]string{"mant-exp", "mant-exp", "long-mant", "halfway", "halfway", "subnormal", "overflow", "hex", "hex", "hex-halfway", "hex-halfway", "extreme-exp", "pow10", "small-int", "huge-mant"}).Draw(t, "class")
 	sign := rapid.SampledFrom([]string{"", "", "-", "+"}).Draw(t, "sign")
 	var lit string
 	switch class {
@@ -229,6 +237,35 @@ func c39Gen(t *rapid.T) c39Case {
 		}
 		if len(lit) > 1200 {
 			class = "halfway-long"
+		}
+	case "huge-mant":
+		// more significant digits than any float or midpoint needs (768) and than strconv keeps (800): a short head - random,
+		// or exactly the midpoint between two adjacent integers above 2^53 - then zeros, then a tail that decides the rounding
+		head := c39Digits(t, 1, 25, "m")
+		if rapid.Bool().Draw(t, "tie-head") {
+			k := rapid.Uint64Range(1<<52, 1<<53-1).Draw(t, "k")
+			// 2k and 2k+2 are adjacent floats in [2^53, 2^54): 2k+1 is their midpoint
+			head = new(big.Int).Add(new(big.Int).Lsh(new(big.Int).SetUint64(k), 1), big.NewInt(1)).String()
+		}
+		if strings.TrimLeft(head, "0") == "" {
+			head = "1" + head
+		}
+		total := rapid.IntRange(760, 1400).Draw(t, "total")
+		tail := rapid.SampledFrom([]string{"", "1", "9", "5", "10"}).Draw(t, "tail")
+		m := head + strings.Repeat("0", total) + tail
+		if rapid.IntRange(0, 3).Draw(t, "dense") == 0 {
+			m = head + c39Digits(t, total, total, "d") + tail
+		}
+		p := rapid.SampledFrom([]int{len(head), len(head), 1, len(m), rapid.IntRange(0, len(m)).Draw(t, "p")}).Draw(t, "dotat")
+		if p < len(m) || rapid.Bool().Draw(t, "enddot") {
+			m = m[:p] + "." + m[p:]
+		}
+		if strings.HasPrefix(m, ".") {
+			m = "0" + m
+		}
+		lit = m
+		if rapid.IntRange(0, 2).Draw(t, "hasexp") == 0 {
+			lit += "e" + strconv.Itoa(rapid.IntRange(-1500, 400).Draw(t, "exp"))
 		}
 	case "subnormal":
 		m := c39Digits(t, 1, 20, "m")
@@ -300,7 +337,7 @@ func c39Gen(t *rapid.T) c39Case {
 
 func isDig(b byte) bool { return b >= '0' && b <= '9' }
 
-const c39Rule = "numerals in the grammar of Decimal.Parse that the experimental lexer hands over (decimal mantissa with optional fraction and e/E exponent, 1-45 digits, exponents -400..400; exact midpoints between adjacent floats and nudged neighbours; subnormal and overflow ranges; hex floats; digit separators; NOT generated: decimal mantissa with a binary p exponent such as 10p0, which the standard library parser named by the property does not accept); oracle: exact big.Rat arithmetic rounded by big.Rat.Float64 (value bit-for-bit, and exact=true only if representable), cross-checked against strconv.ParseFloat; non-trivial = not exactly representable, overflow, or hex; distinct by literal text"
+const c39Rule = "numerals in the grammar of Decimal.Parse that the experimental lexer hands over (decimal mantissa with optional fraction and e/E exponent, 1-45 digits, exponents -400..400; exact midpoints between adjacent floats and nudged neighbours; mantissas of 760-1400 significant digits - beyond what any float or midpoint needs and beyond what strconv keeps - with a random or exact-midpoint head, zeros or random digits, and a tail that decides the rounding, with exponents -1500..400; subnormal and overflow ranges; hex floats; digit separators; NOT generated: decimal mantissa with a binary p exponent such as 10p0, which the standard library parser named by the property does not accept); oracle: exact big.Rat arithmetic rounded by big.Rat.Float64 (value bit-for-bit, and exact=true only if representable), cross-checked against strconv.ParseFloat; non-trivial = not exactly representable, overflow, or hex; distinct by literal text"
 
 func TestC39_Random(t *testing.T) {
 	ev.Run(t, ev.Spec[c39Case]{ID: "C39", Name: "Random", Quick: 30000, Thorough: 3000000, Rule: c39Rule, Gen: c39Gen, Check: c39Check})
